@@ -249,8 +249,9 @@ func (pc *PConn) pump(dir int, src, dst net.Conn) {
 			break
 		}
 	}
-	var msg []byte // payload of the message being assembled
-	var msgOp byte // opcode of its first fragment
+	var pendingRaw []byte // raw bytes of the fragments of the message being assembled
+	var msg []byte        // payload of the message being assembled
+	var msgOp byte        // opcode of its first fragment
 	inMsg := false
 	for {
 		pc.mu.Lock()
@@ -393,10 +394,10 @@ func (pc *PConn) pump(dir int, src, dst net.Conn) {
 				case "after":
 					cut = len(raw)
 				}
-				dst.Write(raw[:cut])
 				if rule.Pos == "after" && fin {
-					pc.logMsg(dir, msgOp, msg, wfFrag)
+					pc.logMsg(dir, msgOp, msg, wfFrag) // logged before the receiver can see it
 				}
+				dst.Write(append(pendingRaw, raw[:cut]...))
 				pc.p.rec.Emit("WireFault", "conn", pc.ID, "fault", rule.Pos+"/"+rule.Style, "dir", dirName[dir], "frame", idx)
 				// let bytes already written drain before the close for FIN-style faults
 				if rule.Style == "fin" {
@@ -420,12 +421,17 @@ func (pc *PConn) pump(dir int, src, dst net.Conn) {
 			continue
 		}
 		pc.mu.Unlock()
-		if fin {
-			// log before forwarding: the receiver's reaction must come later in the trace
-			pc.logMsg(dir, msgOp, msg, wfFrag)
-			inMsg = false
+		// fragments of a message are held until it is complete: the message is logged once, before any of its bytes can be
+		// seen by the receiver (whose reaction must come later in the trace), then forwarded in one go
+		pendingRaw = append(pendingRaw, raw...)
+		if !fin {
+			continue
 		}
-		if _, err := dst.Write(raw); err != nil {
+		pc.logMsg(dir, msgOp, msg, wfFrag)
+		inMsg = false
+		out := pendingRaw
+		pendingRaw = nil
+		if _, err := dst.Write(out); err != nil {
 			return
 		}
 	}
@@ -456,6 +462,15 @@ func (pc *PConn) logMsg(dir int, op byte, msg []byte, fragOK bool) {
 			pc.p.rec.Emit("WireFrame", "conn", pc.ID, "dir", dirName[dir], "kind", kind, "id", id, "chid", chid, "wf", wf, "len", len(msg), "tok", int(tok))
 			return
 		}
+	}
+	if kind == "resp" {
+		var f struct {
+			Error json.RawMessage `json:"error"`
+		}
+		json.Unmarshal(msg, &f)
+		pc.p.rec.Emit("WireFrame", "conn", pc.ID, "dir", dirName[dir], "kind", kind, "id", id, "chid", chid, "wf", wf, "len", len(msg),
+			"iserr", len(f.Error) > 0 && string(f.Error) != "null")
+		return
 	}
 	pc.p.rec.Emit("WireFrame", "conn", pc.ID, "dir", dirName[dir], "kind", kind, "id", id, "chid", chid, "wf", wf, "len", len(msg))
 }
